@@ -65,7 +65,11 @@ MANIFEST = {
                   "to the entry; buffers below 2^61 bytes), or delegating and named: the visual sample entries (C03_vse_pair_agree_canonical), "
                   "trep (C03_counted_pairs_agree_canonical), wvtt (C03_entry_pairs_agree_canonical), evte and stpp (C03_xentry_pairs_agree_canonical: a prefix "
                   "that is a local reader program, then children while payload bytes remain), meta (C03_meta_pair_agree_canonical: ISO and QuickTime form, "
-                  "LookAhead sees the same bytes on both readers), or EXPLORED: esds sgpd; "
+                  "LookAhead sees the same bytes on both readers), sgpd with every grouping type but alst (C03_sgpd_pair_agree: DecodeSgpdSR with the entry "
+                  "decoders seig / roll / 'rap ' / unknown behind the table sgeDecoders written as ONE reader program, coq/c03/C03SgpdModel.v, tied to the code by the G lines; "
+                  "it is local for EVERY entry count, so whatever the reader path accepts the SR path accepts with the same value, anywhere in the caller's buffer, "
+                  "ending where the private run ended, without error), or EXPLORED: esds, and sgpd with alst entries (DecodeAlstSampleGroupEntry asks "
+                  "sr.NrRemainingBytes(), which differs between the private and the caller's reader); "
                   "(ii) a CONTAINER TWIN - the same text around DecodeContainerChildren / ...SR (20 types: the container kind of "
                   "C03_decode_agree_canonical; for edts sinf stbl, whose SR decoder returns sr.AccError() instead of nil, C03_twin_accerr_canonical: "
                   "on a canonical box at any position of the buffer the test never fires) or moov/moof (reader path reads the body and runs the "
@@ -77,8 +81,8 @@ MANIFEST = {
                   "C03_std_canon_leaf), emeb vtte PURE TWINS (same text, reader untouched); (iv) SEPARATELY WRITTEN and named in the theorem, with "
                   "BOTH decoders modelled: trun senc stsd mfhd tfdt, dref (C03_counted_pairs_agree_canonical), the audio sample entries mp4a enca "
                   "ac-3 ec-3 (C03_entry_pairs_agree_canonical: the reader path runs the READER-path box decoder on the rest of the body), or "
-                  "vttc, whose SR decoder only initialises Children with an empty slice where the reader path leaves it nil, is a container twin (nil == empty). Explored-only decoder keys: 2 (were 22): esds (descriptor parsing with absolute positions), sgpd (entry decoders behind a "
-                  "function table). "
+                  "vttc, whose SR decoder only initialises Children with an empty slice where the reader path leaves it nil, is a container twin (nil == empty). Explored-only decoder keys: 2 (were 22): esds (descriptor parsing with absolute positions), sgpd - now only its alst entries (the other "
+                  "entry decoders behind the function table are modelled and proved, see above; the policy list still names sgpd as explored because of alst). "
                   "A reader-path decoder rewritten by hand, an SR decoder that "
                   "starts using GetPos / RemainingBytes / LookAhead ..., a guard present on one path only, or a type registered with another "
                   "SR decoder leaves its class: the theorem fails and the check names the box type, the function and the reason. ENCODERS "
@@ -489,6 +493,8 @@ def run(ctx):
         "model: coq/c03/C03EncHistModel.v (Encode / EncodeSW of MoofBox, MdatBox, Fragment, MediaSegment, File as state transformers, one function per Go "
         "text; the states and the callees OptimizeTfhdTrun / SetTrunDataOffsets / MdatBox.Size are coq/c02/C02AggModel.v + coq/c05, imported read-only; "
         "hooks mp4.VerifC02FirstSampleFlags / VerifC05WriteOrderNr read two unexported trun fields)",
+        "model: coq/c03/C03SgpdModel.v (sgpd.go DecodeSgpdSR, samplegroupentries.go decodeSampleGroupEntry and the seig / roll / rap / unknown entry decoders) "
+        "is a hand transcription as one extended reader program; that the table sgeDecoders holds exactly seig roll 'rap ' alst is read off the Go text; alst is not modelled",
         "model: coq/c03/C03PfxModel.v (dref.go, trep.go, wvtt.go, audiosamplentry.go decoders and encoders) is a hand transcription, one Gallina function per Go function",
         "hook: /repo/mp4/verif_c03.go VerifDecoderKeys (add-only, build tag verif); coq/c03/C03Registry.v generated from it",
         "source facts: harness/c03/srcfacts.go classifies every registered decoder pair and every Encode/EncodeSW pair from the sources "
@@ -510,7 +516,7 @@ def run(ctx):
     rc, cases, e = harness(exe, ["corr", "-seed", ctx.seed, "-n", n, "-exh", exh], 3000)
     if rc != 0:
         raise common.CheckError("harness corr failed rc=%s: %s" % (rc, e[-1000:]))
-    lines = [l for l in cases.splitlines() if l[:2] in ("D\t", "E\t", "B\t", "L\t", "T\t", "V\t", "M\t", "P\t", "Y\t", "H\t", "C\t")]
+    lines = [l for l in cases.splitlines() if l[:2] in ("D\t", "E\t", "B\t", "L\t", "T\t", "V\t", "M\t", "P\t", "Y\t", "H\t", "C\t", "G\t")]
     res = common.run_model(model, "\n".join(lines) + "\n")
     mism = [l for l in res if not l.startswith("OK ")]
     distinct = len(set(l.split("\t", 2)[2] for l in lines))
@@ -518,7 +524,12 @@ def run(ctx):
     ctx.cov["distinct_nontrivial"] += distinct
     ctx.notes["correspondence"] = {
         "cases": len(lines), "mismatches": len(mism), "distinct_cases": distinct,
-        "kinds": {k: sum(1 for l in lines if l.startswith(k + "\t")) for k in ("D", "E", "B", "L", "T", "V", "M", "P", "Y", "H", "C")},
+        "kinds": {k: sum(1 for l in lines if l.startswith(k + "\t")) for k in ("D", "E", "B", "L", "T", "V", "M", "P", "Y", "H", "C", "G")},
+        # G lines: the driver also evaluates C03_sgpd_pair_agree on the run's inputs (hypothesis = the reader-path model accepts; then the SR
+        # model must return the same value without error): cases satisfying the hypothesis / not satisfying it / alst inputs not compared
+        "theorem_hypotheses_evaluated": {"C03_sgpd_pair_agree": {"satisfied": sum(1 for l in res if l.startswith("OK g") and l.endswith(" thm=1")),
+                                                                 "not_satisfied": sum(1 for l in res if l.startswith("OK g") and l.endswith(" thm=0")),
+                                                                 "alst_not_compared": sum(1 for l in res if l.startswith("OK g") and l.endswith(" skip"))}},
         "input_distribution": "D: all shape lists up to length %d over the 32-letter alphabet (C04's 29 + mdat(0/4) and an unknown box behind a 16-byte "
                               "header) + %d random longer lists, through DecodeFile and "
                               "DecodeFileSR with flags none / start-on-moof: outcome class, grouping, StartPos; E: the same lists (length >= 2) and 6 small "
@@ -536,7 +547,11 @@ def run(ctx):
                               "combinations of the optional-field flags) with the same variants: fields, Size, consumed, AccError of both decoders vs "
                               "the reader programs; C: dref, trep, wvtt, mp4a/enca/ac-3/ec-3 with 0..3 standard-leaf children x the same variants (lying sizes, "
                               "truncations, 16-byte headers, lying entry counts, boxes shorter than the fixed part) vs dref_r/sr, trep_r/sr, wvtt_r/sr, evte_r/sr, stpp_r/sr, meta_r/sr, ase_r/sr, and "
-                              "their encoders (M) vs pfx_enc_w/sw; Y: synthesized files [ftyp moov{traks clear / encrypted with tenc IV 0/8/16 / without tenc / without tkhd / "
+                              "their encoders (M) vs pfx_enc_w/sw; G: sgpd boxes, grouping types seig / roll / 'rap ' / two unknown names / alst x versions 0,1,2,3,255 x 0..3 entries "
+                              "x default or per-entry description lengths (seig entries: per-sample IV, constant IV of 0/3/8/16 bytes, unprotected, IsProtected > 1), "
+                              "lying counts (+1, +2..300), lying description / default lengths (+-1, other values, 0), the leafVariants set (16-byte headers, lying "
+                              "sizes, truncations, trailing bytes) through DecodeBox / DecodeBoxSR vs sgpd_prog under xprog_body_r / xprog_sr: fields, every entry, "
+                              "Size(), consumed, AccError (alst inputs are generated but not compared: not modelled); Y: synthesized files [ftyp moov{traks clear / encrypted with tenc IV 0/8/16 / without tenc / without tkhd / "
                               "without entry}] [free] (moof{1..4 trafs} mdat){1,2}, every traf with a track id or no tfhd and no senc / zero-sample senc / "
                               "unparsed senc that parses (8- or 16-byte IVs, sub-samples) / that does not / PIFF senc / saio matching, mismatching, empty / "
                               "seig sample group: every ordered pair of the 12 traf kinds, clear-encrypted-zero-sample triples in every order under 8 trak "
